@@ -151,6 +151,34 @@ class ScriptedProvider(ModelLoader):
         return res
 
 
+class InnerScripted(ScriptedProvider):
+    """The scripted provider used as the *inner* provider of ImportURI (the place of PlainName / FQN): ImportURI asks
+    it for the referencing model first (obj = the referencing object) and, unless that answer is truthy - Postponed
+    is - once per loaded model and builtin model (obj = that model's root)."""
+
+    def __init__(self, base, sched, ctx):
+        ScriptedProvider.__init__(self, base, sched, ctx)
+        self.current = None
+
+    def __call__(self, obj, attr, obj_ref):
+        if get_model(obj) is not obj:
+            self.current = (obj_ref, self.sched.lookup(get_model(obj), obj_ref))
+            return ScriptedProvider.__call__(self, obj, attr, obj_ref)
+        res = self.base(obj, attr, obj_ref)
+        cur = self.current
+        if res is not None and type(res) is not Postponed and cur is not None and cur[0] is obj_ref and cur[1] is not None:
+            self.sched.trace.append((cur[1].key, "R-imported"))
+            self.ctx.ev("prov", cur[1].key, "resolved-in-loaded-model")
+            self.sched.note_resolved(cur[1])
+        return res
+
+
+def make_provider(family, root, sched, ctx, inner):
+    if inner:
+        return sp.ImportURI(InnerScripted(sp.PlainName() if family == "plainuri" else sp.FQN(), sched, ctx))
+    return ScriptedProvider(base_provider(family, root), sched, ctx)
+
+
 def fixpoint(refs):
     done = set()
     changed = True
@@ -327,8 +355,15 @@ def run(ctx):
 def episode(ctx, t, prop, family, tools, memo, mm, rep):
     nfiles = 1 + t.draw(3, "nfiles") if family in MULTIFILE else 1
     root = f"/sim/w1/r{rep}"
+    # the scripted provider *inside* ImportURI (where PlainName / FQN sit), with names the importing file shadows
+    inner = family in ("plainuri", "fqnuri") and t.chance(1, 3, "scripted-provider-inside-importuri")
     w = gen_world(t, root, nfiles=nfiles, qualified=family in QUALIFIED, max_refs=16,
-                  alt_multipart=family == "rrel")  # FQN splits at '.', only RREL honours the match rule's split
+                  alt_multipart=family == "rrel",  # FQN splits at '.', only RREL honours the match rule's split
+                  shadows=inner)
+    if inner:
+        ctx.probe("scripted-provider-inside-importuri")
+        if w.shadow_defs:
+            ctx.probe("name-shadowed-by-the-importing-file")
     w.install(SIMFS)
     closure = w.closure() if family != "plaingr" else list(w.files)
     # GlobalRepo family: the main text may be given as a string without a file name (then it is not a file at all)
@@ -367,7 +402,7 @@ def episode(ctx, t, prop, family, tools, memo, mm, rep):
         m2 = metamodel_from_str(grammar(), textx_tools_support=tools, memoization=memo,
                                 **({"global_repository": True} if family == "plaingr" else {}),
                                 **({"classes": make_user_classes(ctx.ucls)} if ctx.ucls else {}))
-        m2.register_scope_providers({"*.*": ScriptedProvider(base_provider(family, root), scheduler, ctx)})
+        m2.register_scope_providers({"*.*": make_provider(family, root, scheduler, ctx, inner)})
         return m2
 
     def load(the_mm, scheduler):
@@ -377,7 +412,7 @@ def episode(ctx, t, prop, family, tools, memo, mm, rep):
         return the_mm.model_from_file(w.main)
 
     # the same metamodel serves every load of the run; only the provider (and its schedule) is re-registered
-    mm.register_scope_providers({"*.*": ScriptedProvider(base_provider(family, root), sched, ctx)})
+    mm.register_scope_providers({"*.*": make_provider(family, root, sched, ctx, inner)})
     fx = fixpoint(refs) if mode != "rounds" else {r.key for r in refs}
     expect_ok = len(fx) == N
     ctx.ev("world", family, mode, N, expect_ok)
